@@ -125,14 +125,17 @@ fn file_sexp(rel: &str, bytes: &[u8]) -> Sexp {
             )
         })
         .unwrap_or_else(|| tagged("unparsable", []));
-    tagged(
-        "file",
-        [
-            st(rel),
-            tagged("hash", [st(format!("{:016x}", fnv1a64(bytes)))]),
-            body,
-        ],
-    )
+    // with PXHARNESS_TEXT set the raw text is included too (used by the checks that hand the
+    // emitted files to the real Rust compiler)
+    let mut parts = vec![
+        st(rel),
+        tagged("hash", [st(format!("{:016x}", fnv1a64(bytes)))]),
+    ];
+    if std::env::var_os("PXHARNESS_TEXT").is_some() {
+        parts.push(tagged("text", [st(String::from_utf8_lossy(bytes).into_owned())]));
+    }
+    parts.push(body);
+    tagged("file", parts)
 }
 
 // ---- token helpers -------------------------------------------------------------
